@@ -63,14 +63,24 @@ def csRegisterCtor (ud : UnionDef) (c : String × FT) : CtorRef :=
 /-- piFullName -/
 def piFullName (pkg name : String) : String := if pkg = "_" then name else pkg ++ "." ++ name
 
-/-- a call as the emitter sees it: callee (Go name incl. explicit type arguments), the declared
-parameter and result types, the given argument expressions (already rendered) -/
+/-- varRefToGo: the Go spelling of the called function — its (qualified) name followed by the explicit
+type arguments of the call site, if any -/
+def varRefToGo (name : String) (targs : List FT) : String :=
+  if targs.isEmpty then name else name ++ "[" ++ ", ".intercalate (targs.map toGo) ++ "]"
+
+/-- a call as the emitter sees it: the function's Go name, the explicit type arguments given at the
+call site, the declared parameter and result types, the given argument expressions (already
+rendered) -/
 structure FunCall where
-  callee : String
+  name : String
+  targs : List FT := []
   paramTypes : List FT
   result : FT
   args : List String
   unitArgOnly : Bool := false         -- the single given argument is `()`
+
+/-- the callee as emitted, in BOTH call forms (direct call and closure body) -/
+def FunCall.callee (fc : FunCall) : String := varRefToGo fc.name fc.targs
 
 inductive GoExpr where
   | call (callee : String) (args : List String)
